@@ -1,2 +1,3 @@
-import Tumfl.Props.C11
-#print axioms Tumfl.Props.C11_roundtrip
+import Tumfl.Props.C03
+#print axioms Tumfl.Props.C03_ladder_is_climb
+#print axioms Tumfl.Inst.model_ladder_ok
